@@ -139,7 +139,14 @@ where
     O: Sink<BytesMut, Error = anyhow::Error> + Stream<Item = Result<BytesMut>>,
 {
     let (c_l, l_c) = local_client.split();
-    let (c_s, s_c) = client_server.split();
+    let (mut c_s, s_c) = client_server.split();
+
+    // name the target to the server right away (the codecs put their request header in front of the first
+    // item, even an empty one): a target that speaks first, or an application with nothing to send, would
+    // otherwise never be dialled
+    if let Err(e) = c_s.send(BytesMut::new()).await {
+        return relay::Result::Err(End::Client, End::Server, e);
+    }
 
     let l_c_s = async {
         match l_c.forward(c_s).await {
